@@ -87,12 +87,29 @@ theorem opaque_iff (env : Prog.Env) (raw : Bytes) (o : AttObj) (h : Bytes) (res 
     cases v.parsed <;> cases v.chainsOK <;> cases v.claimsOK <;> simp [eq_comm]
   | _ => simp
 
+/-- `Jws.signatureOK` as a statement about the environment -/
+theorem run_signatureOK (env : Prog.Env) (raw : Bytes) (c : Jws.Compact) (der : Bytes) (key : KeyMat) :
+    Prog.run env (Jws.signatureOK raw c der key) = true ↔ Jws.SignedBy env raw c der key := by
+  unfold Jws.signatureOK Jws.SignedBy
+  cases hv : c.verifiable with
+  | false => simp
+  | true =>
+    simp only [Bool.not_true, Bool.false_eq_true, if_false, true_and]
+    cases hpl : Jws.verifyPlan c.alg key c.signature with
+    | reject => simp
+    | primitive s hh sig =>
+      simp only [Prog.run_bind, Prog.run_query]
+      cases env.answer (.sigVerify s hh key c.signingInput sig) <;> simp
+    | «opaque» =>
+      simp only [Prog.run_bind, Prog.run_query]
+      cases env.answer (.jwsVerify raw der) <;> simp
+
 /-- the compact branch -/
 theorem compact_iff (env : Prog.Env) (raw : Bytes) (c : Jws.Compact) (o : AttObj) (h : Bytes) (res : Result) :
     Prog.run env (verifySafetyNetCompact raw c o h) = some res ↔
       ∃ der cert rest nonce, ChainParsed env c.x5c ((der, cert) :: rest) ∧
-        env.answer (.x509Verify der (rest.map (·.1)) safetyNetDNSName) = .bool true ∧ c.verifiable = true ∧
-        env.answer (.jwsVerify raw der) = .bool true ∧ Jws.claims c.payload = some nonce ∧
+        env.answer (.x509Verify der (rest.map (·.1)) safetyNetDNSName) = .bool true ∧
+        Jws.SignedBy env raw c der cert.key ∧ Jws.claims c.payload = some nonce ∧
         nonce = Spec.sha256 env (o.authData ++ h) ∧ res = ⟨"Basic", []⟩ := by
   simp only [verifySafetyNetCompact, Prog.run_bind]
   cases hp : Prog.run env (parseChain c.x5c) with
@@ -114,28 +131,26 @@ theorem compact_iff (env : Prog.Env) (raw : Bytes) (c : Jws.Compact) (o : AttObj
       · intro hr
         by_cases hv : Prog.run env (askBool (.x509Verify leafDer (rest.map (·.1)) safetyNetDNSName)) = true
         · simp only [hv, Bool.not_true, Bool.false_eq_true, if_false] at hr
-          by_cases hvf : c.verifiable = true
-          · simp only [hvf, Bool.not_true, Bool.false_eq_true, if_false] at hr
-            by_cases hs : Prog.run env (askBool (.jwsVerify raw leafDer)) = true
-            · simp only [hs, Bool.not_true, Bool.false_eq_true, if_false] at hr
-              cases hcl : Jws.claims c.payload with
-              | none => rw [hcl] at hr; simp at hr
-              | some nonce =>
-                rw [hcl] at hr
-                simp only [Prog.run_bind, run_sha256, run_ite, Prog.run_pure] at hr
-                by_cases hn : nonce = Spec.sha256 env (o.authData ++ h)
-                · simp only [ne_eq, hn, not_true_eq_false, if_false, Option.some.injEq] at hr
-                  exact ⟨leafDer, leaf, rest, nonce, hch0, (run_askBool _ _).1 hv, hvf, (run_askBool _ _).1 hs, rfl, hn, hr.symm⟩
-                · simp [hn] at hr
-            · simp [hs] at hr
-          · simp [hvf] at hr
+          by_cases hs : Prog.run env (Jws.signatureOK raw c leafDer leaf.key) = true
+          · simp only [hs, Bool.not_true, Bool.false_eq_true, if_false] at hr
+            cases hcl : Jws.claims c.payload with
+            | none => rw [hcl] at hr; simp at hr
+            | some nonce =>
+              rw [hcl] at hr
+              simp only [Prog.run_bind, run_sha256, run_ite, Prog.run_pure] at hr
+              by_cases hn : nonce = Spec.sha256 env (o.authData ++ h)
+              · simp only [ne_eq, hn, not_true_eq_false, if_false, Option.some.injEq] at hr
+                exact ⟨leafDer, leaf, rest, nonce, hch0, (run_askBool _ _).1 hv, (run_signatureOK _ _ _ _ _).1 hs, rfl, hn, hr.symm⟩
+              · simp [hn] at hr
+          · simp [hs] at hr
         · simp [hv] at hr
-      · rintro ⟨der, cert, rest', nonce, hch, hv, hvf, hs, hcl, hn, rfl⟩
+      · rintro ⟨der, cert, rest', nonce, hch, hv, hs, hcl, hn, rfl⟩
         obtain ⟨⟨rfl, rfl⟩, rfl⟩ : (leafDer = der ∧ leaf = cert) ∧ rest = rest' := by
           have := chainParsed_unique env _ _ _ hch0 hch
           simpa using this
-        rw [← run_askBool] at hv hs
-        simp [hv, hvf, hs, hcl, run_sha256, hn]
+        rw [← run_askBool] at hv
+        rw [← run_signatureOK] at hs
+        simp [hv, hs, hcl, run_sha256, hn]
 
 /-- android-safetynet: acceptance ⇔ `SafetyNetOK` -/
 theorem verifySafetyNet_iff (env : Prog.Env) (o : AttObj) (h : Bytes) (res : Result) :
@@ -168,13 +183,13 @@ theorem verifySafetyNet_iff (env : Prog.Env) (o : AttObj) (h : Bytes) (res : Res
     | ok c =>
       simp only [compact_iff]
       constructor
-      · rintro ⟨der, cert, rest, nonce, hch, hv, hvf, hs, hcl, hn, rfl⟩
-        exact ⟨raw, nonce, hraw, SafetyNetResponse.compact c der cert rest hp hch hv hvf hs hcl, hn, rfl⟩
+      · rintro ⟨der, cert, rest, nonce, hch, hv, hs, hcl, hn, rfl⟩
+        exact ⟨raw, nonce, hraw, SafetyNetResponse.compact c der cert rest hp hch hv hs hcl, hn, rfl⟩
       · rintro ⟨raw', nonce, hr, hresp, hn, rfl⟩
         rw [hraw] at hr; cases hr
-        rcases hresp with ⟨c', der, cert, rest, parsed, hch, hv, hvf, hs, hcl⟩ | ⟨v, unmodelled, _⟩
+        rcases hresp with ⟨c', der, cert, rest, parsed, hch, hv, hs, hcl⟩ | ⟨v, unmodelled, _⟩
         · rw [hp] at parsed; cases parsed
-          exact ⟨der, cert, rest, nonce, hch, hv, hvf, hs, hcl, hn, rfl⟩
+          exact ⟨der, cert, rest, nonce, hch, hv, hs, hcl, hn, rfl⟩
         · rw [hp] at unmodelled; cases unmodelled
 
 end WebAuthn.JwsLemmas
